@@ -16,6 +16,7 @@ import Acpi.Tables.Wf
 import Acpi.Tables.Whole
 import Acpi.Spec.Walk
 import Acpi.Spec.Counts
+import Acpi.Spec.OptionOracle
 import Acpi.Spec.Codes
 import Acpi.Spec.Layout
 import Acpi.Spec.FixedLayout
@@ -50,9 +51,8 @@ def c11Fails (k : Kind) (c : EArgs) (opts : List Opt) (raw base : Bytes) (name :
       -- an option changed the size (pushes): fall back to "the entry is the reference encoding"
       if ref ≠ raw then [⟨"prop", "C11", "option-encoding", s!"{name}: not the set-semantics reference encoding"⟩] else []
     else
-      let idx := List.range raw.length
-      let own := idx.find? fun p => ref.getD p 0 ≠ ref0.getD p 0 ∧ raw.getD p 0 ≠ ref.getD p 0
-      let frame := idx.find? fun p => ref.getD p 0 = ref0.getD p 0 ∧ raw.getD p 0 ≠ base.getD p 0
+      let own := Spec.optionOwnViolation ref ref0 raw
+      let frame := Spec.optionFrameViolation ref ref0 raw base
       (match own with
        | some p => [⟨"prop", "C11", "option-own-field", s!"{name}: byte {p} governed by the options is {raw.getD p 0}, reference {ref.getD p 0}"⟩]
        | none => []) ++
